@@ -218,6 +218,27 @@ def check_case(case) -> Obs:
         for rec in wl:
             if rec[:2] in ("A;", "D;") and float(rec.split(";")[6]) > M + 0.005:
                 obs.bad("C06/oversized-record", f"auto_split=False: record {rec!r} exceeds max_volume {M}")
+        # the same border for a reagent distribution (one dispense of v per destination well)
+        for auto in (False, True):
+            T = robotools.Trough("T", 8, 1, min_volume=0, max_volume=1e9, initial_volumes=5e8)
+            D2 = robotools.Labware("D", 8, 2, min_volume=0, max_volume=1e9, initial_volumes=0)
+            wl2 = _wl(dev, max_volume=M, auto_split=auto)
+            obs.units += 1
+            try:
+                wl2.distribute(T, 0, D2, ["A01", "B01", "C01"], volume=v, multi_disp=4)
+            except InvalidOperationError:
+                if rel in ("equal", "below"):
+                    obs.bad("C06/nosplit-refused", f"distribute (auto_split={auto}): volume {v} <= max_volume {M} raised InvalidOperationError")
+            except Exception as exc:
+                obs.bad("C06/nosplit-wrong-exception", f"distribute (auto_split={auto}), v={v}, M={M}: {type(exc).__name__}: {exc}")
+            else:
+                if rel in ("above", "far"):
+                    obs.bad("C06/nosplit-accepted", f"distribute (auto_split={auto}): volume {v} > max_volume {M} was accepted: {list(wl2)}")
+                else:
+                    rrec = [r for r in wl2 if r.startswith("R;")]
+                    md_field = int(rrec[0].split(";")[14]) if rrec else None
+                    if md_field is None or md_field < 1 or md_field * v > M * (1 + 1e-12):
+                        obs.bad("C06/multi-disp", f"distribute: volume={v}, multi_disp=4, max_volume={M} -> R record plans {md_field} multi-dispenses: {rrec}")
         obs.nontrivial = True
         return obs
     if kind == "rd":
